@@ -361,7 +361,12 @@ async fn graceful_shutdown<S>(
 
 	if let Ok(Shutdown::Stopped) = result {
 		let graceful_shutdown = pending_calls.for_each(|_| async {});
-		let disconnect = ws_stream.try_for_each(|_| async { Ok(()) });
+		// Whatever the client still sends is ignored. A message that is too large is not a reason to give the
+		// connection up either (as little as it is before the stop): the calls that are still executing on it are
+		// to be answered. The wait ends when the client goes away or the connection breaks.
+		let disconnect = ws_stream
+			.filter(|incoming| std::future::ready(!matches!(incoming, Err(SokettoError::MessageTooLarge { .. }))))
+			.try_for_each(|_| async { Ok(()) });
 
 		tokio::select! {
 			_ = graceful_shutdown => {}
